@@ -38,9 +38,94 @@ let path_op mode toks =
       if rel_hyp f t then emit (Printf.sprintf "? %s" (hx (canon t))) else emit "? ?"
   | _ -> failwith ("bad op: " ^ String.concat " " toks)
 
+(* ---- part B ------------------------------------------------------------------------------ *)
+
+let text (s : str) : string = String.concat "" (List.map (fun c -> String.make 1 (Char.chr ((int_of_z c) land 255))) s)
+
+(* canonical listing of the whole tree: one token per entry, sorted; the guard directories
+   g1/g2/g3 are not listed themselves and their prefix is dropped *)
+let snapshot (r : node) : string =
+  let acc = ref [] in
+  let rec go prefix n =
+    match n with
+    | NDir es ->
+        List.iter (fun (k, ch) ->
+          let p = if prefix = "" then text k else prefix ^ "/" ^ text k in
+          (match ch with
+           | NDir _ -> acc := (p ^ ":d") :: !acc
+           | NFile c -> acc := (p ^ ":f:" ^ hx c) :: !acc
+           | NLink t -> acc := (p ^ ":l:" ^ hx t) :: !acc);
+          go p ch) es
+    | _ -> () in
+  go "" r;
+  let strip s =
+    let g = "g1/g2/g3/" in
+    let n = String.length g in
+    if String.length s > n && String.sub s 0 n = g then Some (String.sub s n (String.length s - n))
+    else if s = "g1:d" || s = "g1/g2:d" || s = "g1/g2/g3:d" then None
+    else Some ("!" ^ s) in
+  let l = List.sort compare (List.filter_map strip !acc) in
+  if l = [] then "-" else String.concat " " l
+
+let handles_text (st : state) : string =
+  let l = List.sort compare (List.map (fun (h, f) -> if f.fd_dir then Printf.sprintf "h%d@dir" (int_of_nat h)
+                                               else Printf.sprintf "h%d@%d" (int_of_nat h) (int_of_nat f.fd_pos)) st.handles) in
+  if l = [] then "-" else String.concat " " l
+
+let is_dir_handle st h = match hfind st.handles h with Some f -> f.fd_dir | None -> false
+let is_open st h = match hfind st.handles h with Some _ -> true | None -> false
+
+let fs_op (mode : [`Model | `Spec]) (st : state) toks : state =
+  let fin st' res =
+    (match mode with
+     | `Model -> emit (Printf.sprintf "%s | %s | %s" res (snapshot st'.root) (handles_text st'))
+     | `Spec -> emit (Printf.sprintf "%s | %s" res (snapshot st'.root)));
+    st' in
+  let e01 e = match e with None -> "1" | Some _ -> "0" in
+  let p = bytes_of_hex in
+  let nat s = nat_of_int (int_of_string s) in
+  match toks with
+  | ["mkd"; a] -> let (s, e) = k_mkdir st (p a) in fin s (e01 e)
+  | ["mkf"; a; c] -> let (s, e) = k_mkfile st (p a) (p c) in fin s (e01 e)
+  | ["mkl"; t; a] -> let (s, e) = k_symlink st (p t) (p a) in fin s (e01 e)
+  | ["open"; h; a; fl] ->
+      let fl = int_of_string fl in
+      let (s, b) = f_open st (nat h) (p a) (fl land 1 <> 0) (fl land 2 <> 0) (fl land 4 <> 0) (fl land 8 <> 0) in
+      fin s (b01 b)
+  | ["close"; h] -> fin (f_close st (nat h)) "-"
+  | [("write" | "read" | "readall" | "seek" | "size"); h] | [("write" | "read" | "readall" | "seek" | "size"); h; _]
+  | [("write" | "read" | "readall" | "seek" | "size"); h; _; _]
+    when not (is_open st (nat h)) -> fin st "?closed"
+  | [("readall" | "size" | "seek" | "read" | "write"); h] | [("readall" | "size" | "seek" | "read" | "write"); h; _]
+  | [("readall" | "size" | "seek" | "read" | "write"); h; _; _]
+    when is_dir_handle st (nat h) -> fin st "?dir"
+  | ["write"; h; d] -> let (s, b) = f_write st (nat h) (p d) in fin s (b01 b)
+  | ["read"; h; n] ->
+      let (s, r) = f_read st (nat h) (nat n) in
+      fin s (match r with Inl d -> hx d | Inr _ -> "-1")
+  | ["readall"; h] -> let (s, (b, d)) = f_readAll st (nat h) in fin s (b01 b ^ " " ^ hx d)
+  | ["seek"; h; off; wh] -> let (s, z) = f_seek st (nat h) (z_of_int (int_of_string off)) (nat wh) in fin s (dec_of_z z)
+  | ["size"; h] -> let (s, z) = f_size st (nat h) in fin s (dec_of_z z)
+  | ["funlink"; a] -> let (s, b) = f_unlink st (p a) in fin s (b01 b)
+  | ["symlink"; t; a] -> let (s, b) = f_symlink st (p t) (p a) in fin s (b01 b)
+  | ["rename"; a; b; fie] -> let (s, r) = f_rename st (p a) (p b) (fie = "1") in fin s (b01 r)
+  | ["copy"; a; b; fie] -> let (s, r) = f_copy st (p a) (p b) (fie = "1") in fin s (b01 r)
+  | ["exists"; a] -> fin st (b01 (d_exists st (p a)))
+  | ["create"; a] ->
+      let (s, b) = d_create (create_fuel (p a)) st (p a) in
+      (* second token: does the directory exist afterwards (the clause of the property) *)
+      fin s (b01 b ^ " " ^ b01 (d_exists s (p a)))
+  | ["dunlink"; a; r] ->
+      let (s, b) = d_unlink (unlink_fuel st) st (p a) (r = "1") in
+      fin s (b01 b ^ " " ^ b01 (d_exists s (p a)))
+  | _ -> failwith ("bad op: " ^ String.concat " " toks)
+
 let () =
   let mode = Sys.argv.(1) and file = Sys.argv.(2) in
   let m = if mode = "model" then `Model else `Spec in
-  run_cases file (fun _ -> ())
-    (fun () _ toks -> path_op m toks)
+  run_cases file (fun _ -> init_state)
+    (fun st _ toks ->
+       match toks with
+       | ("parts" | "basex" | "simp" | "abs" | "rel") :: _ -> path_op m toks; st
+       | _ -> fs_op m st toks)
     (fun _ -> ())
